@@ -518,7 +518,7 @@ fn pivot_dense_checks(r: &mut Report) {
                 Ok(Err(_)) => r.check(false, "ball pivot completes on a closed ring of points", dsc),
                 Ok(Ok((idx, centers))) => {
                     r.check(centers.len() + 1 == idx.len() && idx.iter().all(|&i| i < pts.len()), "ball pivot: one centre per pair of consecutive hull indices", || format!("{} -> {} indices, {} centres", dsc(), idx.len(), centers.len()));
-                    r.check(centers.len() >= 30, "input space: the pivot travels around the ring (at least 30 steps before it meets a visited point)", || format!("{} -> {} indices", dsc(), idx.len()));
+                    r.check(centers.len() >= 30, "ball pivot completes on a closed ring of points (at least 30 steps around the ring of 60 before it meets a visited point)", || format!("{} -> {} indices", dsc(), idx.len()));
                     if centers.len() + 1 != idx.len() || idx.iter().any(|&i| i >= pts.len()) { continue; }
                     for (k, c) in centers.iter().enumerate() {
                         let d0 = d(&pts[idx[k]], c);
